@@ -372,7 +372,7 @@ Lemma limit_step cf st e :
   (forall a, count_get a (st_pend st) <= max_replies cf) -> forall a, count_get a (st_pend (fst (step cf st e))) <= max_replies cf.
 Proof.
   intros Hl a. unfold step. destruct (negb (wf_event st e)); [apply Hl|].
-  destruct e as [fds|c m|c|d|c s n al rp dq|c s n|c s rl|c|c]; simpl.
+  destruct e as [fds|c m|c|d|c s n al rp dq|c s n|c s rl|c|c|c]; simpl.
   - apply Hl.
   - unfold dispatch, deliver. destruct (resolve st (m_dest m)) as [r|]; [|pose proof (no_owner_props cf st c m) as NP; destruct (no_owner cf st c m) as [stn on]; cbn [fst snd] in NP; destruct NP as (N1 & N2 & N3 & N4 & N5 & N6 & N7 & N8); cbn [fst]; rewrite N5; apply Hl].
     destruct ((0 <? m_nfds m) && negb (conn_fds st r)); [apply Hl|].
@@ -388,6 +388,7 @@ Proof.
     pose proof (release_name_count cf (set_names st (set_queue (st_names st) n q')) n Hl a) as R.
     destruct (release_name cf (set_names st (set_queue (st_names st) n q')) n). exact R.
   - destruct (release (st_names st) c n). simpl. apply Hl.
+  - apply Hl.
   - apply Hl.
   - apply Hl.
   - apply Hl.
@@ -497,7 +498,7 @@ Lemma step_conn cf st e : conn_rel st (fst (step cf st e)) e.
 Proof.
   unfold step. destruct (negb (wf_event st e)) eqn:W.
   - simpl. destruct e; simpl; auto. simpl in W. apply negb_true_iff in W. rewrite W. auto.
-  - apply negb_false_iff in W. destruct e as [fds|c m|c|d|c s n al rp dq|c s n|c s rl|c|c]; simpl.
+  - apply negb_false_iff in W. destruct e as [fds|c m|c|d|c s n al rp dq|c s n|c s rl|c|c|c]; simpl.
     + intros x. unfold connected. simpl. rewrite find_conn_app. destruct (find_conn (st_conns st) x); auto. discriminate.
     + intros x. destruct (dispatch cf st c m) as [st' o] eqn:D. apply dispatch_frame in D. unfold connected. simpl. destruct D as (-> & _). auto.
     + simpl in W. rewrite W. intros x. unfold disconnect. destruct (expire_pass cf (st_now st) (drop_pending (st_pend st) c)).
@@ -510,13 +511,14 @@ Proof.
     + intros x. reflexivity.
     + intros x. reflexivity.
     + intros x. reflexivity.
+    + intros x. reflexivity.
 Qed.
 
 Lemma names_ok_step cf st e : names_ok st -> names_ok (fst (step cf st e)).
 Proof.
   intros Hn. pose proof (step_conn cf st e) as Hc. revert Hc. unfold step.
   destruct (negb (wf_event st e)) eqn:W; [auto|]. apply negb_false_iff in W.
-  destruct e as [fds|c m|c|d|c s n al rp dq|c s n|c s rl|c|c]; simpl; intros Hc.
+  destruct e as [fds|c m|c|d|c s n al rp dq|c s n|c s rl|c|c|c]; simpl; intros Hc.
   - intros n q o H1 H2. apply Hc. simpl in H1. eapply Hn; eauto.
   - destruct (dispatch cf st c m) as [st' o] eqn:D. simpl in *. pose proof (dispatch_frame _ _ _ _ _ _ D) as (_ & _ & E & _).
     intros n q o' H1 H2. rewrite Hc. rewrite E in H1. eapply Hn; eauto.
@@ -540,6 +542,7 @@ Proof.
       * intros n' q' o H1 H2. rewrite Hc. eapply Hn; eauto.
     + intros n' q' o H1 H2. rewrite Hc. eapply Hn; eauto.
   - intros n' q' o H1 H2. simpl in *. rewrite Hc. eapply Hn; eauto.  - intros n' q' o H1 H2. simpl in *. rewrite Hc. eapply Hn; eauto.
+  - intros n' q' o H1 H2. simpl in *. rewrite Hc. eapply Hn; eauto.
   - intros n' q' o H1 H2. simpl in *. rewrite Hc. eapply Hn; eauto.
 Qed.
 
@@ -682,9 +685,9 @@ Qed.
 Lemma idle_step cf st e : idle st -> idle (fst (step cf st e)).
 Proof.
   intros [Hf Hh]. unfold step. destruct (negb (wf_event st e)) eqn:W; [split; auto|]. apply negb_false_iff in W.
-  destruct e as [fds|c m|c|d|c s n al rp dq|c s n|c s rl|c|c]; cbn [fst].
+  destruct e as [fds|c m|c|d|c s n al rp dq|c s n|c s rl|c|c|c]; cbn [fst].
   - split; auto.
-  - simpl in W. rewrite !andb_true_iff in W. destruct W as [_ W]. apply negb_true_iff in W.
+  - simpl in W. rewrite !andb_true_iff in W. destruct W as [[_ W] _]. apply negb_true_iff in W.
     unfold dispatch. destruct (resolve st (m_dest m)) as [r|].
     + pose proof (deliver_frame cf st c r m) as [(_ & _ & _ & _ & Ff & _) Fh]. pose proof (deliver_getters cf st c r m) as G.
       destruct (deliver cf st c r m) as [st1 o1]. cbn [fst] in *. split.
@@ -728,6 +731,7 @@ Proof.
   - split.
     + intros p Hp. cbn [st_pend] in Hp. unfold is_full. cbn [st_full]. eapply is_full_filter; [apply (Hf p Hp)|reflexivity].
     + intros n l x H1 H2. cbn [st_held] in H1. unfold is_full. cbn [st_full]. eapply is_full_filter; [apply (Hh n l x H1 H2)|reflexivity].
+  - split; auto.
 Qed.
 
 (* ------------------------------------------------------------------ Part 3c: table = ledger *)
@@ -974,7 +978,7 @@ Proof.
   intros I Hn Hfi Hnh Hp. pose proof (step_conn cf st e) as Hc. revert Hc. unfold step.
   destruct (negb (wf_event st e)) eqn:W; cbn [fst snd].
   - (* ill-formed: nothing happens *)
-    intros _. destruct e as [fds|c m|c|d|c s n al rp dq|c s n|c s rl|c|c]; try discriminate.
+    intros _. destruct e as [fds|c m|c|d|c s n al rp dq|c s n|c s rl|c|c|c]; try discriminate.
     + apply (Inv_same cf st tr st); auto. intros a b s. simpl. rewrite !andb_false_r. reflexivity.
     + apply Inv_noop_disconnect; auto; simpl in W; apply negb_true_iff in W; exact W.
     + apply (Inv_same cf st tr st); auto; intros; apply age_other; exact Logic.I.
@@ -982,15 +986,18 @@ Proof.
     + apply (Inv_same cf st tr st); auto; intros; apply age_other; exact Logic.I.
     + apply (Inv_same cf st tr st); auto; intros; apply age_other; exact Logic.I.
     + apply (Inv_same cf st tr st); auto; intros; apply age_other; exact Logic.I.
-  - apply negb_false_iff in W. destruct e as [fds|c m|c|d|c s n al rp dq|c s n|c s rl|c|c]; cbn [fst snd]; intros Hc.
+    + apply (Inv_same cf st tr st); auto; intros; apply age_other; exact Logic.I.
+  - apply negb_false_iff in W. destruct e as [fds|c m|c|d|c s n al rp dq|c s n|c s rl|c|c|c]; cbn [fst snd]; intros Hc.
     + apply (Inv_same cf st tr); auto; intros; apply age_other; exact Logic.I.
-    + simpl in W. rewrite !andb_true_iff in W. destruct W as [[[W _] _] _].
+    + simpl in W. rewrite !andb_true_iff in W. destruct W as [[[[W _] _] _] _].
       destruct (dispatch cf st c m) as [st' o] eqn:D. cbn [fst snd]. apply (Inv_send cf st); auto.
     + apply Inv_disconnect; auto.
     + apply Inv_tick; auto.
     + destruct (acquire _ c al rp dq) as [q' code]. rewrite release_name_nil by exact Hnh. cbn [fst snd app]. apply (Inv_same cf st tr); auto;
         try solve [intros x Hx; simpl in Hc; rewrite Hc; auto]; try solve [intros; apply age_other; exact Logic.I].
     + destruct (release (st_names st) c n) as [nm code]. cbn [fst snd]. apply (Inv_same cf st tr); auto;
+        try solve [intros x Hx; simpl in Hc; rewrite Hc; auto]; try solve [intros; apply age_other; exact Logic.I].
+    + apply (Inv_same cf st tr); auto;
         try solve [intros x Hx; simpl in Hc; rewrite Hc; auto]; try solve [intros; apply age_other; exact Logic.I].
     + apply (Inv_same cf st tr); auto;
         try solve [intros x Hx; simpl in Hc; rewrite Hc; auto]; try solve [intros; apply age_other; exact Logic.I].
@@ -1035,7 +1042,7 @@ Lemma no_held_step' cf st e :
   st_held st = [] -> match e with ESend _ m => auto_starts m = false | _ => True end -> st_held (fst (step cf st e)) = [].
 Proof.
   intros Hh Hp. unfold step. destruct (negb (wf_event st e)); [exact Hh|].
-  destruct e as [fds|c m|c|d|c s n al rp dq|c s n|c s rl|c|c]; cbn [fst]; try exact Hh.
+  destruct e as [fds|c m|c|d|c s n al rp dq|c s n|c s rl|c|c|c]; cbn [fst]; try exact Hh.
   - unfold dispatch. destruct (resolve st (m_dest m)) as [r|].
     + destruct (deliver_frame cf st c r m) as [_ F]. rewrite F. exact Hh.
     + unfold auto_starts in Hp.
@@ -1166,12 +1173,12 @@ Proof.
   assert (Hop1 : opens a b s e1 o1 = false).
   { assert (Hin : In e1 (rev h')) by (rewrite <- trace_events with (cf := cf), <- Hrest, map_app; apply in_app_iff; right; left; auto).
     apply in_rev in Hin. unfold plain in Hp'. rewrite forallb_forall in Hp'. specialize (Hp' _ Hin).
-    destruct e1 as [|c1 m1| | | | | | |]; try discriminate. simpl in A1, Hp' |- *.
+    destruct e1 as [|c1 m1| | | | | | | |]; try discriminate. simpl in A1, Hp' |- *.
     rewrite !andb_true_iff, !N.eqb_eq, negb_true_iff, N.eqb_neq in A1. destruct A1 as [[[_ R] Z] _].
     unfold plain_msg in Hp'. apply andb_true_iff in Hp'. destruct Hp' as [Hc _].
     destruct (is_call m1); [|rewrite andb_false_r; auto]. simpl in Hc. apply N.eqb_eq in Hc. congruence. }
   destruct (opened_in tr2 a b s) eqn:O; auto. exfalso.
-  destruct e2 as [|c2 m2| | | | | | |]; try discriminate. simpl in A2.
+  destruct e2 as [|c2 m2| | | | | | | |]; try discriminate. simpl in A2.
   rewrite !andb_true_iff, !N.eqb_eq, negb_true_iff, N.eqb_neq in A2. destruct A2 as [[[C2 R2] Z2] F2]. subst c2 s.
   destruct (only_addressee cf h' b m2 a Hr Hp' Z2 F2) as [Hopen _].
   apply Hopen. rewrite <- Hrest. apply age_none_until_opened; auto.
@@ -1333,7 +1340,7 @@ Proof.
   intros Hp Hc. destruct (ledger_invariant cf h Hp) as [[I1 I2 I3 I4 I5] _].
   destruct (wf_event (state_of cf h) e) eqn:W; [|rewrite step_illformed in Hc; auto; unfold count_noreply in Hc; simpl in Hc; lia].
   unfold trace_of at 2. rewrite run_snoc. cbn [snd]. fold (trace_of cf h).
-  destruct e as [fds|c m|c|d|c sr n al rp dq|c sr n|c sr rl|c|c].
+  destruct e as [fds|c m|c|d|c sr n al rp dq|c sr n|c sr rl|c|c|c].
   - unfold step in Hc. rewrite W in Hc. unfold count_noreply in Hc. simpl in Hc. lia.
   - rewrite step_send in Hc; auto. rewrite dispatch_no_noreply in Hc. lia.
   - simpl in W. rewrite disconnect_output in *; auto.
@@ -1358,6 +1365,7 @@ Proof.
     rewrite He. reflexivity.
   - unfold step in Hc. rewrite W in Hc. cbn [negb] in Hc. destruct (acquire _ c al rp dq) in Hc. rewrite release_name_nil in Hc by (apply no_held_all; exact Hp). unfold count_noreply, nr_is in Hc. simpl in Hc. destruct (c =? a); simpl in Hc; lia.
   - unfold step in Hc. rewrite W in Hc. cbn [negb] in Hc. destruct (release _ c n) in Hc. unfold count_noreply, nr_is in Hc. simpl in Hc. destruct (c =? a); simpl in Hc; lia.  - unfold step in Hc. rewrite W in Hc. cbn [negb] in Hc. unfold count_noreply, nr_is in Hc. simpl in Hc. destruct (c =? a); simpl in Hc; lia.  - unfold step in Hc. rewrite W in Hc. cbn [negb] in Hc. unfold count_noreply in Hc. simpl in Hc. lia.
+  - unfold step in Hc. rewrite W in Hc. cbn [negb] in Hc. unfold count_noreply in Hc. simpl in Hc. lia.
   - unfold step in Hc. rewrite W in Hc. cbn [negb] in Hc. unfold count_noreply in Hc. simpl in Hc. lia.
 Qed.
 
@@ -1449,13 +1457,14 @@ Lemma step_nonsend_no_fwd cf st e x :
   match e with ESend _ _ => False | _ => True end -> In x (snd (step cf st e)) -> match snd x with OFwd _ _ => False | _ => True end.
 Proof.
   intros Hh He. unfold step. destruct (negb (wf_event st e)); [intros []|].
-  destruct e as [fds|c m|c|d|c s n al rp dq|c s n|c s rl|c|c]; try tauto.
+  destruct e as [fds|c m|c|d|c s n al rp dq|c s n|c s rl|c|c|c]; try tauto.
   - intros [].
   - unfold disconnect. rewrite expire_pass_spec. cbn [snd]. intros H. apply in_map_iff in H. destruct H as (p & <- & _). exact I.
   - unfold tick. rewrite expire_pass_spec. cbn [snd]. intros H. apply in_map_iff in H. destruct H as (p & <- & _). exact I.
   - destruct (acquire _ c al rp dq). rewrite release_name_nil by exact Hh. intros [<-|[]]. exact I.
   - destruct (release (st_names st) c n). intros [<-|[]]. exact I.
   - intros [<-|[]]. exact I.
+  - intros [].
   - intros [].
   - intros [].
 Qed.
@@ -1491,7 +1500,7 @@ Proof.
   set (st := state_of cf h). set (o := snd (step cf st e)).
   assert (Hin : inbox ((e, o) :: trace_of cf h) b = inbox (trace_of cf h) b ++ map snd (filter (fun x => fst x =? b) o)) by reflexivity.
   rewrite Hin, filter_app, IH.
-  destruct e as [fds|c m|c|d|c s n al rp dq|c s n|c s rl|c|c];
+  destruct e as [fds|c m|c|d|c s n al rp dq|c s n|c s rl|c|c|c];
     try (rewrite no_fwd_filter; [rewrite app_nil_r; reflexivity|intros x; apply step_nonsend_no_fwd; [exact Hnh|exact I]]).
   assert (Hpo : passed_on ((ESend c m, o) :: trace_of cf h) a b = passed_on (trace_of cf h) a b ++ (if (c =? a) && fwd_to o b then [m] else [])) by reflexivity.
   rewrite Hpo, map_app. f_equal.
@@ -1619,7 +1628,7 @@ Lemma errors_step cf st e a s :
    <= count_gs a s (st_pend st) + hcount a s (st_held st) + (if is_send_as a s e then 1 else 0))%nat.
 Proof.
   unfold step. destruct (negb (wf_event st e)); [simpl; lia|].
-  destruct e as [fds|c m|c|d|c sr n al rp dq|c sr n|c sr rl|c|c]; cbn [is_send_as].
+  destruct e as [fds|c m|c|d|c sr n al rp dq|c sr n|c sr rl|c|c|c]; cbn [is_send_as].
   - simpl. lia.
   - unfold dispatch. destruct (resolve st (m_dest m)) as [r|].
     + pose proof (deliver_gs cf st c r m a s) as D. destruct (deliver_frame cf st c r m) as [_ Fh].
@@ -1658,6 +1667,7 @@ Proof.
     change (st_pend st1') with (st_pend st1) in G. change (length (filter (hkey a s) [])) with 0%nat in H. lia.
   - destruct (release (st_names st) c n). simpl. unfold err_is. cbn [fst snd]. rewrite andb_false_r. simpl. lia.
   - simpl. unfold err_is. cbn [fst snd]. rewrite andb_false_r. simpl. lia.
+  - simpl. lia.
   - simpl. lia.
   - simpl. lia.
 Qed.
@@ -1770,4 +1780,34 @@ Proof.
   destruct (expect_reply cf (st_now st) (st_pend st) c r m) as [pl res] eqn:C.
   destruct (expect_reply_cases _ _ _ _ _ _ _ _ C) as [(_ & -> & ->)|[(_ & -> & -> & _)|[(_ & -> & -> & _)|(_ & -> & -> & _)]]];
     first [solve [intros H; inversion H; auto] | apply Hd].
+Qed.
+
+(* ------------------------------------------------------------------ C09: callee hung up but not yet disconnected *)
+(* the transport noticing EOF changes nothing the routing code looks at: the connection stays registered and addressable *)
+Theorem hangup_changes_nothing cf st c :
+  let st' := fst (step cf st (EHangup c)) in
+  snd (step cf st (EHangup c)) = [] /\ st_pend st' = st_pend st /\ st_names st' = st_names st /\ st_conns st' = st_conns st /\
+  st_held st' = st_held st /\ st_full st' = st_full st /\ forall d, resolve st' d = resolve st d.
+Proof.
+  unfold step. destruct (negb (wf_event st (EHangup c))); cbn [fst snd]; repeat split; auto.
+Qed.
+
+(* a call that is routed to such a connection (its name is still owned) records its slot like any other, and the caller gets
+   exactly one NoReply when the Disconnected message is processed *)
+Theorem call_to_hung_up_callee cf h a b m :
+  plain (h ++ [EHangup b; ESend a m]) = true -> a <> b -> is_call m = true -> m_noreply m = false ->
+  fwd_to (snd (step cf (state_of cf (h ++ [EHangup b])) (ESend a m))) b = true ->
+  count_noreply (snd (step cf (state_of cf (h ++ [EHangup b; ESend a m])) (EDisconnect b))) a (m_serial m) = 1%nat.
+Proof.
+  intros Hp Hab Hc Hn Hf.
+  apply (noreply_once_on_disconnect cf (h ++ [EHangup b; ESend a m]) a b (m_serial m) 0); auto.
+  replace (h ++ [EHangup b; ESend a m]) with ((h ++ [EHangup b]) ++ [ESend a m]) by (rewrite <- app_assoc; reflexivity).
+  unfold trace_of. rewrite run_snoc. cbn [snd]. 
+  set (o := snd (step cf (state_of cf (h ++ [EHangup b])) (ESend a m))) in *.
+  change (age (reply_timeout cf) ((ESend a m, o) :: trace_of cf (h ++ [EHangup b])) a b (m_serial m)) with
+    (if opens a b (m_serial m) (ESend a m) o then Some 0 else if answers a b (m_serial m) (ESend a m) o then None
+     else age (reply_timeout cf) (trace_of cf (h ++ [EHangup b])) a b (m_serial m)).
+  assert (Ho : opens a b (m_serial m) (ESend a m) o = true).
+  { simpl. rewrite !N.eqb_refl, Hc, Hn, Hf. reflexivity. }
+  rewrite Ho. reflexivity.
 Qed.
